@@ -49,7 +49,7 @@ def fold(plains):
 
 @st.composite
 def _case(draw):
-    docs = draw(S.stage_sequence(S.scalar_node(S.SIMPLE_SCALARS), S.MERGE_KEYS, min_stages=1, max_stages=5))
+    docs = draw(S.stage_sequence(S.scalar_or_timestamp(S.SIMPLE_SCALARS), S.MERGE_KEYS, min_stages=1, max_stages=5))
     # yaml anchors / aliases (plain yaml, no tags): a container of some document is used again under further keys of that document;
     # the other stages - generated before - write into paths of the anchored container, and sometimes into the alias place
     if draw(st.integers(0, 3)) == 0:
@@ -65,7 +65,7 @@ def _case(draw):
             d['items'] = [kv for kv in d['items'] if kv[0] != 'zal'] + [['zal', val]]
             if di + 1 < len(docs) and draw(st.booleans()):
                 # a later stage writes into the alias place
-                sub = draw(S.mutate(tgt, S.scalar_node(S.SIMPLE_SCALARS), S.MERGE_KEYS))
+                sub = draw(S.mutate(tgt, S.scalar_or_timestamp(S.SIMPLE_SCALARS), S.MERGE_KEYS))
                 sub = {k: v for k, v in sub.items() if k != 'anchor'}
                 place = sub if shape == 0 else tdoc.mp([(draw(st.integers(0, 1)), sub)]) if shape == 1 else tdoc.mp([('k', sub)])
                 later = docs[draw(st.integers(di + 1, len(docs) - 1))]
